@@ -75,6 +75,7 @@ class Obligation:
     goal: object  # z3 Bool to be valid under assumptions
     kind: str = "identity"
     extra_assumptions: list = field(default_factory=list)
+    fallback: object = None  # callable -> list[Obligation]: exact (un-abstracted) form, tried when this one is sat
 
 
 def domain(ctx: Ctx) -> list:
@@ -132,6 +133,18 @@ def discharge(
             if model is not None:
                 st = res.status = "sat"
                 res.detail = "found by partial concretisation after unknown"
+        if st == "sat" and ob.fallback is not None:
+            # the obligation is an over-approximation (opaque sub-terms): decide the exact form instead
+            exact = ob.fallback()
+            sub = discharge(
+                ctx, exact, config=config, timeout_s=timeout_s, replay=replay, twin=False, sample_smt2=0,
+                tactics=tactics, hunt_rounds=hunt_rounds, hunt_seed=hunt_seed,
+            )
+            for r in sub:
+                r.name = f"{ob.name}=>exact:{r.name}"
+                r.detail = "abstraction was too coarse or the defect is real; exact form decided"
+            out += sub
+            continue
         if st == "sat":
             res.assignment = model_to_assignment(ctx, model)
             if replay is not None:
